@@ -174,7 +174,8 @@ Proof.
     eapply newvar_sorted; eassumption.
   - unfold b_inverse. destruct (is_const F zero eq_dec _) as [c|]; [destruct (feqb F eq_dec c zero)|pairs];
       intros [= <- _]; apply PUSH; cbn [fst]; try apply single_sorted. eapply newvar_sorted; eassumption.
-  - destruct (b_frombinary F zero one add mul opp eq_dec cst st _ _ a) as [r s1] eqn:E. intros [= <- _]. apply PUSH. cbn [fst].
+  - destruct a as [|a0' a'] eqn:EA; [intros [= <- _]; exact SV|]. rewrite <- EA.
+    destruct (b_frombinary F zero one add mul opp eq_dec cst st _ _ a) as [r s1] eqn:E. intros [= <- _]. apply PUSH. cbn [fst].
     eapply frombinary_sorted; [apply single_sorted|exact E].
   - unfold b_xor. pairs. intros [= <- _]. apply PUSH. cbn [fst]. eapply add_sorted; eassumption.
   - unfold b_or. pairs. intros [= <- _]. apply PUSH. cbn [fst]. eapply newvar_sorted; eassumption.
